@@ -7,7 +7,9 @@
             J s     : every pending (written, not yet finished) message's line is durable
                       already, or sits in the volatile part of the open output file, or
                       (gzip) in the open gzip member;
-            E s     : an open handle names an existing file in the working directory. *)
+            E s     : an open handle names an existing file in the working directory.
+   The fault schedule is part of the configuration: everything here holds for every set of
+   failing system calls (a failing call emits OFail, which changes no file, and is fatal). *)
 From Coq Require Import List ZArith NArith Bool Lia.
 From NSQV Require Import model.Judge model.FileOS model.FileLogger proofs.FileOSProofs.
 Import ListNotations.
@@ -125,47 +127,95 @@ Proof. intros s H. unfold fatal. apply Inv_set_status. apply emit_safe; auto. in
 Lemma fatal_not_running : forall s, running (fatal s) = false.
 Proof. reflexivity. Qed.
 
-(* ---------- flush: (gzip: close the member) ; fsync ---------- *)
-Lemma flush_cov : forall s k, Inv s -> out s = HOpen k ->
-  let s' := emit (if gzip c then gz_close s k else s) (OFsync k) in
-  Inv s' /\ AllCov s' /\ out s' = HOpen k /\ pending s' = pending s.
+(* ---------- system-call counters and failing calls ---------- *)
+Lemma bump_inv : forall s w, Inv s -> Inv (bump s w).
+Proof. intros s w H. exact H. Qed.
+
+Lemma fail_at_inv : forall s w k, Inv s -> Inv (fail_at s w k).
 Proof.
-  intros s k HI Hk.
-  set (s1 := if gzip c then gz_close s k else s).
-  assert (H1 : Inv s1 /\ out s1 = HOpen k /\ pending s1 = pending s /\
-          forall m, In m (pending s1) -> covered (fs s1) m \/
-                    exists f, lookup (fs s1) k = Some f /\ In (line m) (f_vol f)).
-  { unfold s1. destruct (gzip c) eqn:G.
-    - assert (HI1 : Inv (emit s (OMember k (gzbuf s)))) by (apply emit_safe; auto; intros; discriminate).
-      destruct HI as [W [HJ He]]. destruct (He k Hk) as [[f Hf] Hd].
-      assert (Hl : lookup (fs (emit s (OMember k (gzbuf s)))) k = Some (mkFile (f_dur f) (f_vol f ++ gzbuf s))).
-      { simpl. rewrite append_vol_lookup, Hf, key_eqb_refl. reflexivity. }
-      split; [|split; [|split]].
-      + unfold gz_close. destruct HI1 as [W1 [J1 E1]]. split; [exact W1|]. split; [|exact E1].
-        intros m Hm. simpl in Hm. destruct (HJ m Hm) as [Hc | [k' [Hk' [[f' [Hf' Hin]] | [_ Hg]]]]].
-        * left. apply covered_emit_safe; [reflexivity | exact Hc].
-        * rewrite Hk in Hk'. inversion Hk'; subst k'. rewrite Hf in Hf'. inversion Hf'; subst f'.
-          right. exists k. split; [exact Hk|]. left. eexists. split; [exact Hl|]. simpl. apply in_or_app. auto.
-        * right. exists k. split; [exact Hk|]. left. eexists. split; [exact Hl|]. simpl. apply in_or_app. auto.
-      + exact Hk.
-      + reflexivity.
-      + intros m Hm. simpl in Hm. destruct (HJ m Hm) as [Hc | [k' [Hk' [[f' [Hf' Hin]] | [_ Hg]]]]].
-        * left. apply covered_emit_safe; [reflexivity | exact Hc].
-        * rewrite Hk in Hk'. inversion Hk'; subst k'. rewrite Hf in Hf'. inversion Hf'; subst f'.
-          right. eexists. split; [exact Hl|]. simpl. apply in_or_app. auto.
-        * right. eexists. split; [exact Hl|]. simpl. apply in_or_app. auto.
-    - split; [exact HI|]. split; [exact Hk|]. split; [reflexivity|].
-      destruct HI as [W [HJ He]]. intros m Hm.
-      destruct (HJ m Hm) as [Hc | [k' [Hk' [[f' [Hf' Hin]] | [Hg _]]]]]; auto.
-      + rewrite Hk in Hk'. inversion Hk'; subst k'. right. exists f'. auto.
-      + congruence. }
-  destruct H1 as [HI1 [Hk1 [Hp1 Hv]]]. simpl.
-  assert (HI2 : Inv (emit s1 (OFsync k))) by (apply emit_safe; auto; intros; discriminate).
-  split; [exact HI2|]. split; [|split; [exact Hk1 | exact Hp1]].
+  intros s w k H. unfold fail_at. apply fatal_inv.
+  apply emit_safe; [apply bump_inv; exact H | reflexivity | intros m Hm; discriminate].
+Qed.
+
+Lemma fail_at_cov : forall s w k, AllCov s -> AllCov (fail_at s w k).
+Proof. intros s w k A. exact A. Qed.
+
+Lemma fail_at_not_running : forall s w k, running (fail_at s w k) = false.
+Proof. reflexivity. Qed.
+
+(* ---------- flush: (gzip: close the member) ; fsync ---------- *)
+Definition VolOrCov (s : st) (k : key) : Prop :=
+  forall m, In m (pending s) ->
+    covered (fs s) m \/ exists f, lookup (fs s) k = Some f /\ In (line m) (f_vol f).
+
+Lemma gz_close_inv : forall s k, gzip c = true -> Inv s -> out s = HOpen k ->
+  Inv (gz_close s k) /\ out (gz_close s k) = HOpen k /\ pending (gz_close s k) = pending s /\
+  VolOrCov (gz_close s k) k.
+Proof.
+  intros s k G HI Hk.
+  assert (HI1 : Inv (emit s (OMember k (gzbuf s)))) by (apply emit_safe; auto; intros; discriminate).
+  destruct HI as [W [HJ He]]. destruct (He k Hk) as [[f Hf] Hd].
+  assert (Hl : lookup (fs (emit s (OMember k (gzbuf s)))) k = Some (mkFile (f_dur f) (f_vol f ++ gzbuf s))).
+  { simpl. rewrite append_vol_lookup, Hf, key_eqb_refl. reflexivity. }
+  split; [|split; [|split]].
+  + unfold gz_close. destruct HI1 as [W1 [J1 E1]]. split; [exact W1|]. split; [|exact E1].
+    intros m Hm. simpl in Hm. destruct (HJ m Hm) as [Hc | [k' [Hk' [[f' [Hf' Hin]] | [_ Hg]]]]].
+    * left. apply covered_emit_safe; [reflexivity | exact Hc].
+    * rewrite Hk in Hk'. inversion Hk'; subst k'. rewrite Hf in Hf'. inversion Hf'; subst f'.
+      right. exists k. split; [exact Hk|]. left. eexists. split; [exact Hl|]. simpl. apply in_or_app. auto.
+    * right. exists k. split; [exact Hk|]. left. eexists. split; [exact Hl|]. simpl. apply in_or_app. auto.
+  + exact Hk.
+  + reflexivity.
+  + intros m Hm. simpl in Hm. destruct (HJ m Hm) as [Hc | [k' [Hk' [[f' [Hf' Hin]] | [_ Hg]]]]].
+    * left. apply covered_emit_safe; [reflexivity | exact Hc].
+    * rewrite Hk in Hk'. inversion Hk'; subst k'. rewrite Hf in Hf'. inversion Hf'; subst f'.
+      right. eexists. split; [exact Hl|]. simpl. apply in_or_app. auto.
+    * right. eexists. split; [exact Hl|]. simpl. apply in_or_app. auto.
+Qed.
+
+Lemma plain_vol : forall s k, gzip c = false -> Inv s -> out s = HOpen k -> VolOrCov s k.
+Proof.
+  intros s k G [W [HJ He]] Hk m Hm.
+  destruct (HJ m Hm) as [Hc | [k' [Hk' [[f' [Hf' Hin]] | [Hg _]]]]]; auto.
+  + rewrite Hk in Hk'. inversion Hk'; subst k'. right. exists f'. auto.
+  + congruence.
+Qed.
+
+Lemma fsync_cov : forall s k, Inv s -> out s = HOpen k -> VolOrCov s k ->
+  Inv (emit s (OFsync k)) /\ AllCov (emit s (OFsync k)).
+Proof.
+  intros s k HI Hk Hv.
+  assert (HI2 : Inv (emit s (OFsync k))) by (apply emit_safe; auto; intros; discriminate).
+  split; [exact HI2|].
   intros m Hm. simpl in Hm. destruct (Hv m Hm) as [Hc | [f [Hf Hin]]].
   - apply covered_emit_safe; [reflexivity | exact Hc].
   - exists k. eexists. simpl. rewrite Hf, lookup_update_same. split; [reflexivity|].
     simpl. apply in_or_app. auto.
+Qed.
+
+(* whatever fails, the invariant holds; when nothing failed every pending line is durable *)
+Lemma flush_inv : forall s k, Inv s -> out s = HOpen k ->
+  Inv (flush c s k) /\
+  (running (flush c s k) = true ->
+   AllCov (flush c s k) /\ out (flush c s k) = HOpen k /\ pending (flush c s k) = pending s).
+Proof.
+  intros s k HI Hk. unfold flush.
+  set (s1 := if gzip c then (if faulty c s FGzClose then fail_at s FGzClose k else gz_close (bump s FGzClose) k) else s).
+  assert (H1 : Inv s1 /\ (running s1 = true -> out s1 = HOpen k /\ pending s1 = pending s /\ VolOrCov s1 k)).
+  { unfold s1. destruct (gzip c) eqn:G.
+    - destruct (faulty c s FGzClose).
+      + split. apply fail_at_inv; auto. intro R. discriminate.
+      + destruct (gz_close_inv (bump s FGzClose) k G (bump_inv _ _ HI) Hk) as [A [B [C D]]].
+        split; auto.
+    - split; auto. intros _. split; auto. split; auto. apply plain_vol; auto. }
+  destruct H1 as [HI1 H1]. cbv zeta.
+  destruct (running s1) eqn:R1; cbn [negb].
+  2:{ split; auto. intro R. congruence. }
+  destruct (H1 eq_refl) as [Hk1 [Hp1 Hv]].
+  destruct (faulty c s1 FFsync).
+  - split. apply fail_at_inv; auto. intro R. discriminate.
+  - destruct (fsync_cov (bump s1 FFsync) k (bump_inv _ _ HI1) Hk1 Hv) as [A B].
+    split; auto.
 Qed.
 
 (* ---------- FIN of the whole batch ---------- *)
@@ -199,7 +249,7 @@ Lemma sync_file_inv : forall s, Inv s ->
 Proof.
   intros s HI. unfold sync_file. destruct (out s) as [|k|k] eqn:Ho.
   - split. apply fatal_inv; auto. intro H. discriminate.
-  - destruct (flush_cov s k HI Ho) as [A [B _]]. destruct (gzip c); split; auto.
+  - destruct (flush_inv s k HI Ho) as [A B]. split; auto. intro R. apply B. exact R.
   - split. apply fatal_inv; auto. intro H. discriminate.
 Qed.
 
@@ -241,36 +291,76 @@ Proof.
   - intros m H. discriminate.
 Qed.
 
+Lemma fail_at_closed : forall s w k, Inv s -> closed s -> Inv (fail_at s w k) /\ closed (fail_at s w k).
+Proof. intros s w k HI Hc. split. apply fail_at_inv; exact HI. exact Hc. Qed.
+
+Lemma link_eexist_inv : forall s src dst, Inv s -> closed s ->
+  Inv (link_eexist c s src dst) /\ closed (link_eexist c s src dst) /\
+  fs (link_eexist c s src dst) = fs s.
+Proof.
+  intros s src dst HI Hc. unfold link_eexist. destruct (faulty c s FLink).
+  - destruct (fail_at_closed s FLink src HI Hc) as [A B]. split; auto.
+  - destruct (emit_closed (bump s FLink) (OLink src dst false) (bump_inv _ _ HI) Hc) as [A B].
+    { apply safe_op_le. reflexivity. }
+    { intros m H. discriminate. }
+    split; auto.
+Qed.
+
+Lemma move_inv : forall s src dst f, Inv s -> closed s ->
+  fst src = DWork -> fst dst = DOut -> lookup (fs s) src = Some f -> lookup (fs s) dst = None ->
+  Inv (move c s src dst) /\ closed (move c s src dst).
+Proof.
+  intros s src dst f HI Hc Hw Ho Hs Hd. unfold move.
+  assert (Hne : src <> dst) by (intro H; subst; rewrite Hw in Ho; discriminate).
+  destruct (faulty c s FLink); [apply fail_at_closed; auto|].
+  destruct (emit_closed (bump s FLink) (OLink src dst true) (bump_inv _ _ HI) Hc) as [HI1 Hc1].
+  { apply safe_op_le. reflexivity. }
+  { intros m H. discriminate. }
+  cbv zeta. set (s1 := emit (bump s FLink) (OLink src dst true)) in *.
+  destruct (faulty c s1 FUnlink); [apply fail_at_closed; auto|].
+  apply emit_closed; [apply bump_inv; exact HI1 | exact Hc1 | | intros m H; discriminate].
+  change (fs (bump s1 FUnlink)) with (apply_op (fs s) (OLink src dst true)).
+  apply unlink_le with (dst := dst) (f := f); auto.
+  + simpl. rewrite Hs, Hd. rewrite lookup_update_other; auto.
+  + simpl. rewrite Hs, Hd. apply lookup_update_same.
+Qed.
+
 Lemma close_bump_inv : forall fuel s src i f, Inv s -> closed s ->
   fst src = DWork -> lookup (fs s) src = Some f ->
-  Inv (close_bump fuel s src i) /\ closed (close_bump fuel s src i).
+  Inv (close_bump fuel c s src i) /\ closed (close_bump fuel c s src i).
 Proof.
   induction fuel as [|n IH]; intros s src i f HI Hc Hw Hs; simpl.
   - split; auto.
   - destruct (exists_ (fs s) (DOut, with_rev (filename s) i)) eqn:Ex.
-    + destruct (emit_closed s (OLink src (DOut, with_rev (filename s) i) false) HI Hc) as [HI1 Hc1].
-      { apply safe_op_le. reflexivity. }
-      { intros m H. discriminate. }
-      eapply IH; eauto.
-    + destruct (rename_excl_inv s src (DOut, with_rev (filename s) i) f HI Hc Hw eq_refl Hs (exists_false _ _ Ex)) as [A B].
+    + destruct (link_eexist_inv s src (DOut, with_rev (filename s) i) HI Hc) as [HI1 [Hc1 Hfs]].
+      destruct (running (link_eexist c s src (DOut, with_rev (filename s) i))); [|split; auto].
+      eapply IH; eauto. rewrite Hfs. exact Hs.
+    + destruct (move_inv s src (DOut, with_rev (filename s) i) f HI Hc Hw eq_refl Hs (exists_false _ _ Ex)) as [A B].
       split.
       * destruct A as [W [HJ He]].
         apply mkInv; [exact W | exact (J_closed_cov _ HJ B) | intros k Hk; simpl in Hk; discriminate].
       * intros k Hk. simpl in Hk. discriminate.
 Qed.
 
-Lemma close_file_inv : forall s, Inv s -> Inv (close_file c s) /\ closed (close_file c s).
+(* after Close either the process is dead (some call failed) or no handle is open *)
+Lemma close_file_inv : forall s, Inv s ->
+  Inv (close_file c s) /\ (running (close_file c s) = true -> closed (close_file c s)).
 Proof.
   intros s HI. unfold close_file. destruct (out s) as [|k|k] eqn:Ho.
-  - split; auto. intros k H. congruence.
-  - destruct (flush_cov s k HI Ho) as [A [B [Hk Hp]]].
-    set (s1 := if gzip c then gz_close s k else s) in *.
-    set (sf := emit s1 (OFsync k)) in *.
-    assert (HE : (exists f, lookup (fs sf) k = Some f) /\ fst k = wdir c).
+  - split; auto. intros _ k H. congruence.
+  - destruct (flush_inv s k HI Ho) as [A B]. cbv zeta.
+    set (s1 := flush c s k) in *.
+    destruct (running s1) eqn:R1; cbn [negb].
+    2:{ split; auto. intro R. congruence. }
+    destruct (B eq_refl) as [B1 [Hk Hp]].
+    destruct (faulty c s1 FClose).
+    { split. apply fail_at_inv; auto. intro R. discriminate. }
+    assert (HE : (exists f, lookup (fs s1) k = Some f) /\ fst k = wdir c).
     { destruct A as [_ [_ He]]. apply He. exact Hk. }
-    assert (A2 : Inv (emit sf (OClose k))) by (apply emit_safe; auto; intros; discriminate).
-    assert (B2 : AllCov (emit sf (OClose k))) by (apply emit_cov; auto; apply fs_le_refl).
-    set (s2 := set_out (emit sf (OClose k)) (HStale k)).
+    set (sb := bump s1 FClose).
+    assert (A2 : Inv (emit sb (OClose k))) by (apply emit_safe; [exact A | reflexivity | intros; discriminate]).
+    assert (B2 : AllCov (emit sb (OClose k))) by (apply emit_cov; [exact B1 | apply fs_le_refl]).
+    set (s2 := set_out (emit sb (OClose k)) (HStale k)).
     assert (HI2 : Inv s2).
     { destruct A2 as [W _]. apply mkInv; auto. intros k' H. simpl in H. discriminate. }
     assert (Hc2 : closed s2) by (intros k' H; simpl in H; discriminate).
@@ -278,15 +368,17 @@ Proof.
     + destruct HE as [[f Hf] Hd]. unfold wdir in Hd. rewrite UW in Hd.
       assert (Hf2 : lookup (fs s2) k = Some f) by exact Hf.
       destruct (exists_ (fs s2) (DOut, snd k)) eqn:Ex.
-      * destruct (emit_closed s2 (OLink k (DOut, snd k) false) HI2 Hc2) as [HI3 Hc3].
-        { apply safe_op_le. reflexivity. }
-        { intros m H. discriminate. }
-        eapply close_bump_inv; eauto.
-      * apply rename_excl_inv with (f := f); auto. apply exists_false. exact Ex.
+      * destruct (link_eexist_inv s2 k (DOut, snd k) HI2 Hc2) as [HI3 [Hc3 Hfs]].
+        destruct (running (link_eexist c s2 k (DOut, snd k))); [|split; auto].
+        destruct (close_bump_inv (S (length (fs s2))) (link_eexist c s2 k (DOut, snd k)) k (N.succ (rev_ s2)) f HI3 Hc3 Hd) as [X Y].
+        { rewrite Hfs. exact Hf2. }
+        split; auto.
+      * destruct (move_inv s2 k (DOut, snd k) f HI2 Hc2 Hd eq_refl Hf2 (exists_false _ _ Ex)) as [X Y].
+        split; auto.
     + split.
       * destruct HI2 as [W _]. apply mkInv; auto. intros k' H. simpl in H. discriminate.
-      * intros k' H. simpl in H. discriminate.
-  - split. apply fatal_inv; auto. intros k' H. simpl in H. congruence.
+      * intros _ k' H. simpl in H. discriminate.
+  - split. apply fatal_inv; auto. intros _ k' H. simpl in H. congruence.
 Qed.
 
 (* ---------- updateFile ---------- *)
@@ -298,18 +390,23 @@ Proof.
   - destruct (use_work c && exists_ (fs s) (DOut, with_rev (filename s) (rev_ s))).
     + apply IH; auto.
     + set (k := (wdir c, with_rev (filename s) (rev_ s))).
+      destruct (faulty c s FOpen).
+      { split. apply fail_at_inv; auto. apply fail_at_cov; auto. }
+      set (sb := bump s FOpen).
+      assert (HIb : Inv sb) by exact HI.
+      assert (HAb : AllCov sb) by exact HA.
       destruct (excl_mode c && exists_ (fs s) k).
       * apply IH.
         { apply Inv_set_rev. apply emit_safe; auto. intros; discriminate. }
         { apply emit_cov; auto. apply safe_op_le. reflexivity. }
       * set (o := OCreate k (excl_mode c) (negb (excl_mode c)) false true).
-        assert (HI1 : Inv (emit s o)) by (apply emit_safe; auto; intros; discriminate).
-        assert (HA1 : AllCov (emit s o)) by (apply emit_cov; auto; apply safe_op_le; reflexivity).
-        assert (Hex : exists f, lookup (fs (emit s o)) k = Some f).
+        assert (HI1 : Inv (emit sb o)) by (apply emit_safe; auto; intros; discriminate).
+        assert (HA1 : AllCov (emit sb o)) by (apply emit_cov; auto; apply safe_op_le; reflexivity).
+        assert (Hex : exists f, lookup (fs (emit sb o)) k = Some f).
         { simpl. destruct (lookup (fs s) k) eqn:L. exists f. exact L.
           eexists. apply lookup_update_same. }
-        set (sz := match lookup (fs (emit s o)) k with Some fl => fsize fl | None => 0%Z end).
-        set (s2 := set_size (set_gzbuf (set_out (emit s o) (HOpen k)) []) sz).
+        set (sz := match lookup (fs (emit sb o)) k with Some fl => fsize fl | None => 0%Z end).
+        set (s2 := set_size (set_gzbuf (set_out (emit sb o) (HOpen k)) []) sz).
         assert (HI2 : Inv s2).
         { destruct HI1 as [W _]. apply mkInv; auto.
           intros k' H. simpl in H. inversion H; subst k'. split; auto. }
@@ -332,19 +429,22 @@ Qed.
 Lemma write_msg_inv : forall s m, Inv s -> Inv (write_msg c s m).
 Proof.
   intros s m HI. unfold write_msg. destruct (out s) as [|k|k] eqn:Ho; try (apply fatal_inv; auto).
-  apply Inv_set_size. destruct (gzip c) eqn:G.
+  destruct (faulty c s FWrite).
+  { apply fail_at_inv. destruct (gzip c); auto. apply emit_safe; auto. intros; discriminate. }
+  cbv zeta. apply Inv_set_size. destruct (gzip c) eqn:G.
   - destruct HI as [W [HJ He]]. split; [exact W|]. split; [|exact He].
     intros x Hx. simpl in Hx. destruct (HJ x Hx) as [Hc | [k' [Hk' [Hv | [Hg Hin]]]]].
     + left. exact Hc.
     + right. exists k'. split; auto.
     + right. exists k'. split; auto. right. split; auto. simpl. apply in_or_app. auto.
-  - apply emit_safe; auto. intros; discriminate.
+  - apply emit_safe; [exact HI | reflexivity | intros; discriminate].
 Qed.
 
 Lemma write_msg_new : forall s m, Inv s -> running s = true -> running (write_msg c s m) = true ->
   in_flight_ok (write_msg c s m) m.
 Proof.
   intros s m HI R R2. unfold write_msg in *. destruct (out s) as [|k|k] eqn:Ho; try discriminate.
+  destruct (faulty c s FWrite); [discriminate|]. cbv zeta in *.
   right. exists k. split.
   - destruct (gzip c); simpl; exact Ho.
   - destruct (gzip c) eqn:G.
